@@ -162,13 +162,19 @@ def model_batch(lines, timeout=1800):
     if not lines:
         return []
     with build_lock():
-        b = lake(['build', 'Homonim'])
-    if b.returncode != 0:
-        return None
-    r = subprocess.run(
-        ['lake', 'env', 'lean', '--run', 'Main.lean'], cwd=LEAN, input='\n'.join(lines) + '\n', capture_output=True,
-        text=True, timeout=timeout
-    )
+        b = lake(['build', 'Homonim', 'driver'])
+    exe = LEAN / '.lake' / 'build' / 'bin' / 'driver'
+    if b.returncode == 0 and exe.exists():
+        # compiled driver (the model files import nothing outside Lean core)
+        r = subprocess.run([str(exe)], cwd=LEAN, input='\n'.join(lines) + '\n', capture_output=True, text=True, timeout=timeout)
+    else:
+        b2 = lake(['build', 'Homonim']) if b.returncode != 0 else b
+        if b2.returncode != 0:
+            return None
+        r = subprocess.run(
+            ['lake', 'env', 'lean', '--run', 'Main.lean'], cwd=LEAN, input='\n'.join(lines) + '\n', capture_output=True,
+            text=True, timeout=timeout
+        )
     out = r.stdout.split('\n')
     if out and out[-1] == '':
         out.pop()
